@@ -362,9 +362,10 @@ func BranchChain(list []ast.Stmt, i int) []Branch {
 			return out
 		}
 	case *ast.SwitchStmt:
-		if s.Tag != nil || s.Init != nil {
+		if s.Tag != nil {
 			return nil
 		}
+		// (an init statement — `switch r := next(); { … }` — runs once before the tests)
 		var def *ast.CaseClause
 		for _, c := range s.Body.List {
 			cc := c.(*ast.CaseClause)
